@@ -31,6 +31,14 @@ Theorem C15_oldest : forall m evs s o t' id v a,
 Proof. exact oldest. Qed.
 Print Assumptions C15_oldest.
 
+(* a connection arriving while the server runs is always accepted (a session is spawned for it and
+   runs), also at the limit *)
+Theorem C15_accept_always_spawns : forall m evs s o s' o', run (init m) evs = Some (s, o) -> running s = true ->
+  step s (Accept true) = Some (s', o') ->
+  In (Spawned (next_id (trk s))) o' /\ alive s' (next_id (trk s)) = true /\ running s' = true.
+Proof. exact accept_spawns. Qed.
+Print Assumptions C15_accept_always_spawns.
+
 (* an Accept evicts nothing iff the tracker is below the limit *)
 Theorem C15_evicts_only_at_limit : forall m evs s o t' id ev,
   run (init m) evs = Some (s, o) -> add (trk s) = Some (t', id, ev) ->
